@@ -52,7 +52,7 @@ PROPS = {
         not_decided="floating-point exactness of k*x"),
     "C13": dict(
         rules=["R-JSON-KEYS", "R-JSON-KINDS", "R-JSON-UPG", "R-JSON-CLS", "R-JSON-ID", "R-JSON-LOAD", "R-JSON-SIB", "R-CACHE:json", "R-SETORDER", "R-JSON-DISPATCH", "R-LATEBIND:json", "R-JSON-WALK", "R-JSON-DEFAULTS"],
-        decided="writer/reader key and kind agreement, to_json dispatch covers every attribute kind, sibling to_json signatures agree, scalar values written without rounding and hourly ones with 3 decimals, loader converts unconditionally and after the version upgrade, ids preserved, upgrade-handler table total, class table covers reachable classes, registries / memo tables used while loading are keyed by everything the stored object depends on; link lists handed to the loader never take their order from a set; model code does not dispatch on a value class the loader does not rebuild; the writer's reachability walk follows links only (no recursive descent into bookkeeping containers); a wrapper built with its container is stored by its maker",
+        decided="writer/reader key and kind agreement, to_json dispatch covers every attribute kind, sibling to_json signatures agree, scalar values written without rounding and hourly ones with 3 decimals, loader converts unconditionally and after the version upgrade, ids preserved, upgrade-handler table total, class table covers reachable classes, registries / memo tables used while loading are keyed by everything the stored object depends on; link lists handed to the loader never take their order from a set; model code does not dispatch on a value class the loader does not rebuild; the writer's reachability walk follows links only (no recursive descent into bookkeeping containers); a wrapper built with its container is stored by its maker; a constructor with a non-None default source is given the source explicitly on every path of the loader",
         not_decided="numeric equality after reload, byte-equality of re-export, liveness of the loaded system"),
     "C14": dict(
         rules=["R-TXN:val", "R-VAL-FORMS", "R-VAL-SIB", "R-VAL-DEF", "R-VAL-AUTH", "R-ENTRY", "R-RULE-TXN", "R-LATEBIND:update", "R-TXN:recompute", "R-ATTACH"],
